@@ -2282,6 +2282,227 @@ Proof.
 Qed.
 End TwoIndexCart.
 
+(* ---- the same statement for any coordinate types (spherical transform on either side) ---- *)
+(* sum_c t_c h(c) over the common length of a transform row and the component axis *)
+Definition tl_sum (trow : list F) (L : nat) (h : nat -> F) : F :=
+  fsum (map (fun tc : F * nat => fst tc * h (snd tc)) (combine trow (seq 0 L))).
+
+Lemma tl_sum_ext trow L h h' : (forall c, h c = h' c) -> tl_sum trow L h = tl_sum trow L h'.
+Proof. intros H. unfold tl_sum. apply fsum_map_ext. intros tc. now rewrite H. Qed.
+
+Lemma map_as_mk {A B} (g : A -> B) (l : list A) d : map g l = mk (length l) (fun i => g (nth i l d)).
+Proof.
+  apply (nth_ext _ _ (g d) (g d)); [now rewrite map_length, mk_length|].
+  intros n Hn. rewrite map_length in Hn. rewrite nth_mk by exact Hn. apply map_nth.
+Qed.
+
+Lemma combine_mk_r {A} (trow : list F) L (h : nat -> A) :
+  combine trow (mk L h) = map (fun tc : F * nat => (fst tc, h (snd tc))) (combine trow (seq 0 L)).
+Proof.
+  unfold mk. generalize (seq 0 L). intros l. revert trow. induction l as [|c l IH]; intros [|t trow]; cbn; try reflexivity.
+  now rewrite IH.
+Qed.
+
+Lemma apply_rows_mk T L (h : nat -> F) :
+  apply_rows 0 (fadd K) (fmul K) T (mk L h) = mk (length T) (fun j => tl_sum (nth j T []) L h).
+Proof.
+  unfold apply_rows. rewrite (map_as_mk _ T []). apply mk_ext. intros j _.
+  unfold asum, tl_sum. rewrite combine_mk_r, map_map. reflexivity.
+Qed.
+
+Lemma transform_right_mk4 T M1 L1 M2 L2 f :
+  transform_right 0 (fadd K) (fmul K) T (mk4 M1 L1 M2 L2 f)
+  = mk4 M1 L1 M2 (length T) (fun m1 c1 m2 j => tl_sum (nth j T []) L2 (fun c2 => f m1 c1 m2 c2)).
+Proof.
+  unfold transform_right, mk4. rewrite map_mk'. apply mk_ext. intros m1 _. rewrite map_mk'. apply mk_ext. intros c1 _.
+  rewrite map_mk'. apply mk_ext. intros m2 _. apply apply_rows_mk.
+Qed.
+
+Lemma slab_fold_mk trow cs M2 L2 (g : nat -> nat -> nat -> F) :
+  fold_right (slab_add (fadd K)) (mk M2 (fun _ => mk L2 (fun _ => 0)))
+    (map (fun '(t, sl) => slab_scale (fmul K) t sl)
+         (combine trow (map (fun c1 => mk M2 (fun m2 => mk L2 (fun c2 => g c1 m2 c2))) cs)))
+  = mk M2 (fun m2 => mk L2 (fun c2 => fsum (map (fun tc : F * nat => fst tc * g (snd tc) m2 c2) (combine trow cs)))).
+Proof.
+  revert trow. induction cs as [|c cs IH]; intros [|t trow]; cbn [map combine fold_right]; try reflexivity.
+  rewrite IH. unfold slab_add, slab_scale. rewrite map_mk', combine_mk, map_mk'. apply mk_ext. intros m2 _.
+  rewrite map_mk', combine_mk, map_mk'. apply mk_ext. intros c2 _. reflexivity.
+Qed.
+
+Lemma transform_left_mk4 T M1 L1 M2 L2 f : 0 < L1 ->
+  transform_left 0 (fadd K) (fmul K) T (mk4 M1 L1 M2 L2 f)
+  = mk4 M1 (length T) M2 L2 (fun m1 i m2 c2 => tl_sum (nth i T []) L1 (fun c1 => f m1 c1 m2 c2)).
+Proof.
+  intros HL. unfold transform_left, mk4. rewrite map_mk'. apply mk_ext. intros m1 _.
+  rewrite (map_as_mk _ T []). apply mk_ext. intros i _.
+  assert (Z : slab_zero 0 (hd [] (mk L1 (fun b => mk M2 (fun c => mk L2 (fun d => f m1 b c d)))))
+              = mk M2 (fun _ => mk L2 (fun _ => 0))).
+  { destruct L1 as [|L1']; [lia|]. unfold mk at 1. cbn [seq map hd]. unfold slab_zero. rewrite map_mk'.
+    apply mk_ext. intros m2 _. now rewrite map_mk'. }
+  rewrite Z. unfold mk at 3. rewrite (slab_fold_mk (nth i T []) (seq 0 L1) M2 L2 (fun c1 m2 c2 => f m1 c1 m2 c2)).
+  reflexivity.
+Qed.
+
+(* what steps 1-2 of the assembly make of the (m1, ., m2, .) slab of a block *)
+Definition proc (sph1 sph2 : bool) (T1 T2 : list (list F)) (L1 L2 : nat)
+           (f : nat -> nat -> nat -> nat -> F) (m1 i m2 j : nat) : F :=
+  let g := fun c2 => if sph1 then tl_sum (nth i T1 []) L1 (fun c1 => f m1 c1 m2 c2) else f m1 i m2 c2 in
+  if sph2 then tl_sum (nth j T2 []) L2 g else g j.
+
+Lemma transforms_mk4 (sph1 sph2 : bool) T1 T2 M1 L1 M2 L2 f : (0 < L1)%nat ->
+  (let b0 := if sph1 then transform_left 0 (fadd K) (fmul K) T1 (mk4 M1 L1 M2 L2 f) else mk4 M1 L1 M2 L2 f in
+   if sph2 then transform_right 0 (fadd K) (fmul K) T2 b0 else b0)
+  = mk4 M1 (if sph1 then length T1 else L1) M2 (if sph2 then length T2 else L2) (proc sph1 sph2 T1 T2 L1 L2 f).
+Proof.
+  intros HL. cbv zeta. unfold proc. destruct sph1, sph2; rewrite ?transform_left_mk4 by exact HL;
+    rewrite ?transform_right_mk4; reflexivity.
+Qed.
+
+Section TwoIndexAny.
+Variable G : shell F -> shell F -> F -> F -> comp -> comp -> F.
+
+Lemma ncomp_pos (s : shell F) : 0 < ncomp s.
+Proof.
+  unfold ncomp, comps_of. destruct (s_comps s) as [|c cs]; [|cbn; lia].
+  unfold default_comps. cbn [seq flat_map]. rewrite app_length. cbn [seq map length]. lia.
+Qed.
+
+Lemma pblock_form sa sb : 0 < ncomp sa ->
+  pblock K 0 (fadd K) (fmul K) (kblockf G) (prep K sa) (prep K sb)
+  = flatten_block (mk4 (nseg sa) (if s_sph sa then length (shell_transform K sa) else ncomp sa)
+                       (nseg sb) (if s_sph sb then length (shell_transform K sb) else ncomp sb)
+                       (proc (s_sph sa) (s_sph sb) (shell_transform K sa) (shell_transform K sb) (ncomp sa) (ncomp sb)
+                             (nentry (G sa sb) sa sb))).
+Proof.
+  intros HL. unfold pblock, prep, shell_block, kblockf. cbn [p_shell p_norm p_T]. cbv zeta.
+  change (normalise K (fmul K) (norm_cont K sa) (norm_cont K sb) (kblock (G sa sb) sa sb)) with (nblock (G sa sb) sa sb).
+  rewrite nblock_form. f_equal.
+  exact (transforms_mk4 (s_sph sa) (s_sph sb) (shell_transform K sa) (shell_transform K sb)
+           (nseg sa) (ncomp sa) (nseg sb) (ncomp sb) (nentry (G sa sb) sa sb) HL).
+Qed.
+
+(* generalized = segmented, assembled for one pair of shells of ANY coordinate types: the processed block is the
+   matrix of the processed blocks (tiles) of the single-column shells, segment-major on both sides *)
+Theorem pblock_segment_major sa sb :
+  (forall ma mb, G (col_shell sa ma) (col_shell sb mb) = G sa sb) ->
+  pblock K 0 (fadd K) (fmul K) (kblockf G) (prep K sa) (prep K sb)
+  = concat (mk (nseg sa) (fun ma =>
+      mk (if s_sph sa then length (shell_transform K sa) else ncomp sa) (fun i =>
+        concat (mk (nseg sb) (fun mb =>
+          nth i (pblock K 0 (fadd K) (fmul K) (kblockf G) (prep K (col_shell sa ma)) (prep K (col_shell sb mb))) []))))).
+Proof.
+  intros HG. pose proof (ncomp_pos sa) as HL. rewrite (pblock_form sa sb HL), flatten_block_mk4.
+  f_equal. apply mk_ext. intros ma Hma. apply mk_ext. intros i Hi. f_equal. apply mk_ext. intros mb Hmb.
+  rewrite (pblock_form (col_shell sa ma) (col_shell sb mb) HL), HG, flatten_block_mk4.
+  rewrite (nseg_col_shell sa ma Hma), (nseg_col_shell sb mb Hmb), !mk1.
+  change (ncomp (col_shell sa ma)) with (ncomp sa). change (ncomp (col_shell sb mb)) with (ncomp sb).
+  change (s_sph (col_shell sa ma)) with (s_sph sa). change (s_sph (col_shell sb mb)) with (s_sph sb).
+  change (shell_transform K (col_shell sa ma)) with (shell_transform K sa).
+  change (shell_transform K (col_shell sb mb)) with (shell_transform K sb).
+  cbn [concat]. rewrite app_nil_r. rewrite nth_mk by exact Hi. rewrite mk1. cbn [concat]. rewrite app_nil_r.
+  apply mk_ext. intros j _. unfold proc.
+  destruct (s_sph sa), (s_sph sb).
+  - apply tl_sum_ext. intros c2. apply tl_sum_ext. intros c1. symmetry. now apply nentry_col.
+  - apply tl_sum_ext. intros c1. symmetry. now apply nentry_col.
+  - apply tl_sum_ext. intros c2. symmetry. now apply nentry_col.
+  - symmetry. now apply nentry_col.
+Qed.
+End TwoIndexAny.
+
+Theorem overlap_pblock_segment_major sa sb :
+  pblock K 0 (fadd K) (fmul K) (overlap_block K) (prep K sa) (prep K sb)
+  = concat (mk (nseg sa) (fun ma =>
+      mk (if s_sph sa then length (shell_transform K sa) else ncomp sa) (fun i =>
+        concat (mk (nseg sb) (fun mb =>
+          nth i (pblock K 0 (fadd K) (fmul K) (overlap_block K) (prep K (col_shell sa ma)) (prep K (col_shell sb mb))) []))))).
+Proof.
+  assert (E : forall s1 s2, pblock K 0 (fadd K) (fmul K) (overlap_block K) (prep K s1) (prep K s2)
+                          = pblock K 0 (fadd K) (fmul K) (kblockf ov_kern) (prep K s1) (prep K s2)).
+  { intros s1 s2. unfold pblock, kblockf. cbn [prep p_shell]. now rewrite overlap_block_kernel. }
+  rewrite E, (pblock_segment_major ov_kern sa sb (fun _ _ => eq_refl)).
+  f_equal. apply mk_ext. intros ma _. apply mk_ext. intros i _. f_equal. apply mk_ext. intros mb _.
+  now rewrite E.
+Qed.
+
+(* ---- public-function level, one generalized shell on each side: base_two_asymm of ([sa], [sb]) is
+        base_two_asymm of (the single-column shells of sa, the single-column shells of sb), any coordinate
+        types, with or without transforms ---- *)
+Lemma hcat_rows (R : nat) (ms : list (list (list F))) : ms <> [] -> Forall (fun m => length m = R) ms ->
+  hcat ms = mk R (fun i => concat (map (fun m => nth i m []) ms)).
+Proof.
+  induction ms as [|m ms IH]; intros Hne HR; [congruence|]. inversion HR as [|? ? Hm HR']; subst.
+  destruct ms as [|m' rest].
+  - cbn [hcat map concat]. rewrite <- (mk_nth_id m []) at 1. apply mk_ext. intros i _. now rewrite app_nil_r.
+  - change (hcat (m :: m' :: rest)) with (map (fun '(r1, r2) => r1 ++ r2) (combine m (hcat (m' :: rest)))).
+    rewrite IH by (congruence || assumption). rewrite <- (mk_nth_id m []) at 1.
+    rewrite combine_mk, map_mk'. reflexivity.
+Qed.
+
+Section PairAsymm.
+Variable G : shell F -> shell F -> F -> F -> comp -> comp -> F.
+Notation PB := (pblock K 0 (fadd K) (fmul K) (kblockf G)).
+
+Lemma tile_rows sa sb ma mb : ma < nseg sa -> mb < nseg sb ->
+  length (PB (prep K (col_shell sa ma)) (prep K (col_shell sb mb)))
+  = if s_sph sa then length (shell_transform K sa) else ncomp sa.
+Proof.
+  intros Hma Hmb. rewrite (pblock_form G (col_shell sa ma) (col_shell sb mb) (ncomp_pos _)), flatten_block_mk4.
+  rewrite (nseg_col_shell sa ma Hma), mk1. cbn [concat]. rewrite app_nil_r. apply mk_length.
+Qed.
+
+Lemma nth_segments_prep s i : i < nseg s ->
+  nth i (map (prep K) (segments s)) (dummy_p K) = prep K (col_shell s i).
+Proof.
+  intros Hi. unfold segments. rewrite map_map.
+  rewrite (nth_indep _ (dummy_p K) ((fun m => prep K (col_shell s m)) 0%nat)) by (now rewrite map_length, seq_length).
+  rewrite (map_nth (fun m => prep K (col_shell s m))). now rewrite seq_nth by exact Hi.
+Qed.
+
+Theorem two_asymm_pair_segmented sa sb T1 T2 : 0 < nseg sb ->
+  (forall ma mb, G (col_shell sa ma) (col_shell sb mb) = G sa sb) ->
+  two_asymm_integral K 0 (fadd K) (fmul K) (kblockf G) (segments sa) (segments sb) T1 T2
+  = two_asymm_integral K 0 (fadd K) (fmul K) (kblockf G) [sa] [sb] T1 T2.
+Proof.
+  intros HM HG. unfold two_asymm_integral. cbv zeta.
+  assert (E : two_asymm_blocks (length (map (prep K) (segments sa))) (length (map (prep K) (segments sb)))
+                (fun i j => PB (nth i (map (prep K) (segments sa)) (dummy_p K)) (nth j (map (prep K) (segments sb)) (dummy_p K)))
+              = two_asymm_blocks (length (map (prep K) [sa])) (length (map (prep K) [sb]))
+                (fun i j => PB (nth i (map (prep K) [sa]) (dummy_p K)) (nth j (map (prep K) [sb]) (dummy_p K)))).
+  { assert (LS : forall s, length (map (prep K) (segments s)) = nseg s)
+      by (intros s; unfold segments; now rewrite !map_length, seq_length).
+    rewrite !LS. cbn [map length].
+    unfold two_asymm_blocks, vcat. rewrite !mk1. cbn [nth concat hcat]. rewrite app_nil_r.
+    rewrite (pblock_segment_major G sa sb HG). f_equal. apply mk_ext. intros ma Hma.
+    set (R := if s_sph sa then length (shell_transform K sa) else ncomp sa).
+    rewrite (hcat_rows R).
+    - apply mk_ext. intros i _. f_equal. rewrite map_mk'. apply mk_ext. intros mb Hmb.
+      now rewrite (nth_segments_prep sa ma Hma), (nth_segments_prep sb mb Hmb).
+    - destruct (nseg sb); [lia|]. unfold mk. cbn [seq map]. discriminate.
+    - apply Forall_forall. intros m Hin. unfold mk in Hin. apply in_map_iff in Hin. destruct Hin as [mb [<- Hmb]].
+      apply in_seq in Hmb. rewrite (nth_segments_prep sa ma Hma), (nth_segments_prep sb mb) by lia.
+      apply tile_rows; lia. }
+  now rewrite E.
+Qed.
+End PairAsymm.
+
+(* overlap_integral_asymmetric([sa], [sb]) = overlap_integral_asymmetric(segments of sa, segments of sb) *)
+Theorem overlap_asymm_pair_segmented sa sb T1 T2 : 0 < nseg sb ->
+  overlap_integral_asymm K (segments sa) (segments sb) T1 T2 = overlap_integral_asymm K [sa] [sb] T1 T2.
+Proof.
+  intros HM. unfold overlap_integral_asymm.
+  assert (E : forall b1 b2, two_asymm_integral K 0 (fadd K) (fmul K) (overlap_block K) b1 b2 T1 T2
+                          = two_asymm_integral K 0 (fadd K) (fmul K) (kblockf ov_kern) b1 b2 T1 T2).
+  { intros b1 b2. unfold two_asymm_integral. cbv zeta.
+    assert (EB : two_asymm_blocks (length (map (prep K) b1)) (length (map (prep K) b2))
+                   (fun i j => pblock K 0 (fadd K) (fmul K) (overlap_block K) (nth i (map (prep K) b1) (dummy_p K)) (nth j (map (prep K) b2) (dummy_p K)))
+                 = two_asymm_blocks (length (map (prep K) b1)) (length (map (prep K) b2))
+                   (fun i j => pblock K 0 (fadd K) (fmul K) (kblockf ov_kern) (nth i (map (prep K) b1) (dummy_p K)) (nth j (map (prep K) b2) (dummy_p K)))).
+    { unfold two_asymm_blocks. f_equal. apply mk_ext. intros i _. f_equal. apply mk_ext. intros j _.
+      unfold pblock, kblockf. now rewrite overlap_block_kernel. }
+    now rewrite EB. }
+  rewrite !E. now apply (two_asymm_pair_segmented ov_kern sa sb T1 T2 HM).
+Qed.
+
 (* overlap: Overlap.construct_array_contraction is such a frame kernel *)
 Theorem overlap_pblock_segment_major_cart sa sb : s_sph sa = false -> s_sph sb = false ->
   pblock K 0 (fadd K) (fmul K) (overlap_block K) (prep K sa) (prep K sb)
